@@ -11,8 +11,13 @@ What lives here
   * `run_history`: the reference-model interpreter for one history on one family under one cache/bundle
     configuration, including the independent pandas reader of `*.bundleN` / `*.indexing` files and the
     fresh-`Loader(options).restore()` comparison;
-  * fault injection (n-th `DataFrame.to_feather` raises) and the `DataModel.save` swallow recorder;
-  * post-conditions on `LRUCache.get/put` and `GeneralLoader.get_item_by_id` that stay on during real runs.
+  * fault injection (n-th `DataFrame.to_feather` raises, or the target path is occupied) and the `DataModel.save`
+    swallow recorder;
+  * post-conditions (icontract) on `LRUCache.get/put/remove` and `GeneralLoader.get_raw_item_by_id` that stay on during
+    histories and real runs;
+  * the comparison, after a real analysis, of what every `GeneralLoader.save` received with what the live loader and
+    a fresh restored loader return, and the digest used to compare the same analysis under two loader configurations;
+  * the same history machinery (`run_map_history`) for the in-memory map loaders (no caches, one file each).
 
 Canonical forms are JSON-able Python values; numbers are compared with Python equality (3.0 == 3), missing values
 (None/NaN) are dropped from row dictionaries, sets are sorted.  `ABSENT` is the canonical form of "no such item"
@@ -1408,8 +1413,9 @@ def install_contracts():
 
     def err(name):
         def make(self, result):
+            walk = _lru_walk(self)
             return ContractBroken(name, "capacity=%r resident=%r list=%r expected by the LRU rule=%r" % (
-                getattr(self, "capacity", None), list(getattr(self, "cache", {}))[:6], (_lru_walk(self) or ["<broken links>"])[:6],
+                getattr(self, "capacity", None), list(getattr(self, "cache", {}))[:6], "<broken links>" if walk is None else walk[:6],
                 list(shadow(self).keys())[:6]), result)
         return make
 
